@@ -80,9 +80,18 @@ def run_vectors(ctx, name_reqs):
             raise Infra('C10: %s' % json.dumps(x))
     ctx.cov['evaluations'] += summ[0]['evaluated']
     ctx.cov['vectors_replayed'] = summ[0]['evaluated']
+    ndiv = 0
     for m in [x for x in recs if x.get('kind') == 'mismatch']:
+        if m['what'] == 'place':
+            # the property fixes what a placement must satisfy (PlaceRel), not the allocator: TLC decides on the
+            # observation the harness logged for this vector; a mere difference from Place is a model divergence
+            ndiv += 1
+            if ndiv <= 3:
+                ctx.warn('MODEL-DIVERGENCE: real place%s = %s, documented allocator gives %s' % (m.get('x'), m.get('got'), m.get('want')))
+            continue
         ctx.violation('C10:%s' % m['what'], m, 'real %s disagrees with FileFormat.tla: input %s want %s got %s' % (
             m['what'], m.get('x'), m.get('want'), m.get('got')))
+    ctx.cov['divergences'] += ndiv
     if summ[0]['mismatches'] == 0:
         ctx.cov['traces_validated_against_impl'] += len(vectors)
 
@@ -210,15 +219,23 @@ def run(ctx):
     summ = [x for x in recs if x.get('kind') == 'summary']
     if not summ:
         raise Infra('C10 ops harness wrote no summary:\n' + out[-2000:])
-    ctx.cov['traces_validated_against_impl'] += summ[0]['matched']
+    ctx.cov['traces_validated_against_impl'] += summ[0]['matched']       # behaviours whose every step matched the model state exactly
     ctx.cov['behaviours_replayed'] = summ[0]['behaviours']
     ctx.cov['behaviour_steps'] = summ[0]['steps']
     ctx.cov['evaluations'] += summ[0]['steps']
     for m in [x for x in recs if x.get('kind') == 'mismatch']:
         where = 'behaviour %s step %s' % (m.get('id'), m.get('step')) if 'id' in m else 'random run %s' % m.get('random_run')
         ctx.violation('C10:ops:%s' % m.get('what'), m,
-                      '%s (%s by %s, name length %s): the file written by the real code differs from FileFormatOps.tla in %s: %s' % (
-                          where, m.get('op'), m.get('a'), m.get('nlen'), m.get('what'), json.dumps(m)[:700]))
+                      '%s (%s by %s, name length %s): %s: %s' % (where, m.get('op'), m.get('a'), m.get('nlen'), {
+                          'layout': 'the independent decoder finds the written file malformed',
+                          'library-read': 'the library reads the file differently from the independent decoder',
+                          'meta': 'metadata block differs from the documented one', 'header-bytes': 'header bytes differ from the documented header',
+                          'op-error': 'the operation failed'}.get(m.get('what'), m.get('what')), json.dumps(m)[:700]))
+    divs = [x for x in recs if x.get('kind') == 'divergence']
+    ctx.cov['divergences'] += summ[0].get('diverged', 0)
+    for d in divs[:3]:
+        ctx.warn('MODEL-DIVERGENCE: behaviour %s step %s: the written file differs from the one FileFormatOps.tla (documented allocator) predicts in %s' % (
+            d.get('id'), d.get('step'), d.get('what')))
 
     # ---- 4. code -> model: random runs validated by TLC ---------------------
     evs = [x for x in recs if x.get('kind') == 'ev']
@@ -226,7 +243,7 @@ def run(ctx):
     for e in evs:
         runs.setdefault(e['run'], []).append(e)
     keys = sorted(runs)
-    per = 25
+    per = 80
     ok_runs = 0
     for i in range(0, len(keys), per):
         part = [e for k in keys[i:i + per] for e in runs[k]]
@@ -236,15 +253,14 @@ def run(ctx):
             ok_runs += len(keys[i:i + per])
         elif status == 'unexplained':
             bad = part[info - 1] if 0 < info <= len(part) else None
-            ctx.violation('C10:ops:observed', {'event': bad, 'index': info},
-                          'an observed operation on a real counter file is not a step of FileFormatOps.tla: %s' % json.dumps(bad)[:700])
+            raise Infra('FileFormatOpsTrace stopped at event %s without an error' % info)
         else:
             name, idx = info
             bad = part[idx - 1] if 0 < idx <= len(part) else None
             ctx.violation('C10:ops:observed:%s' % name, {'event': bad, 'index': idx},
                           'an observed real counter file violates %s: %s' % (name, json.dumps(bad)[:700]))
-    ctx.cov['traces_validated_against_impl'] += ok_runs
-    ctx.cov['random_runs_validated'] = ok_runs
+    ctx.cov['traces_validated_against_impl'] += len([k for k in keys if k < 1000000]) if ok_runs == len(keys) else 0
+    ctx.cov['runs_validated'] = ok_runs
     ctx.cov['random_events'] = len(evs)
     ctx.cov['evaluations'] += len(evs)
     if evs:
